@@ -1884,7 +1884,7 @@ class Exec:
         if b is None:
             if name == 'len':
                 x = A[0]
-                if isinstance(x, VSet) and any(_symbolic_member(y) for y in x.items):
+                if isinstance(x, VSet) and st.heap.get((x.key, 'symadd')) and len(x.items) > 1:
                     raise ToolLimit('len of a set with members that are not concrete values')
                 if isinstance(x, (VTuple, VList, VSet)):
                     return [(st, VInt(len(self.items(x, st))))]
@@ -2747,6 +2747,7 @@ class Exec:
                 if isinstance(x, VObj) and self.repo.lookup(x.cls, '__eq__') is None and self.repo.lookup(x.cls, '__hash__') is None and not z3.is_expr(x.ref):
                     return ('obj', x.ref)
                 if name == 'add' and _symbolic_member(x):
+                    st.heap[(b.key, 'symadd')] = True
                     # an immutable value that is not concrete (octets, a number, a text): kept as a member of its own - whether it equals
                     # another member is decided where membership is asked (`in`); counting and iterating such a set is out of reach
                     return ('sym', next(_fresh))
@@ -2945,7 +2946,7 @@ class Exec:
             rest = list(st.heap[it.cell])
             st.heap[it.cell] = ()
             return rest
-        if isinstance(it, VSet) and (it.conds is not None or any(_symbolic_member(x) for x in it.items)):
+        if isinstance(it, VSet) and (it.conds is not None or (st.heap.get((it.key, 'symadd')) and len(it.items) > 1)):
             raise ToolLimit('iteration over a set with symbolic membership')
         if isinstance(it, (VList, VTuple, VSet)):
             return self.items(it, st)
